@@ -726,6 +726,29 @@ func (e *storeEnv) readProbes(n string, k int) (int, []string) {
 			e.eh.Expand(e.ctx(n), &rts.ExpandRequest{Subject: rts.NewSubjectSet("n1", "ge-"+fresh, "r"), MaxDepth: 3})
 		}},
 	}
+	// every method on every path of the read port (and of the syntax port), with a query that matches stored relationships and
+	// with the bodies the write API takes: whatever a route answers there, nothing stored changes
+	for _, rt := range []struct {
+		name string
+		h    http.Handler
+	}{{"read", e.rr}, {"syntax", e.sr}} {
+		rt := rt
+		for _, path := range []string{"/relation-tuples", "/relation-tuples/check", "/relation-tuples/check/openapi", "/relation-tuples/batch/check",
+			"/relation-tuples/expand", "/namespaces", "/admin/relation-tuples", "/opl/syntax/check"} {
+			path := path
+			for _, m := range []string{"PUT", "PATCH", "DELETE", "POST", "HEAD", "OPTIONS"} {
+				m := m
+				if rt.name == "syntax" && m != "DELETE" && m != "PUT" {
+					continue
+				}
+				probes = append(probes, probe{m + " " + path + " on the " + rt.name + " port", func() {
+					e.do(n, rt.h, m, path+"?namespace=n1", nil)
+					e.do(n, rt.h, m, path+"?namespace=n1&relation=r", body)
+					e.do(n, rt.h, m, path, []byte(`[{"action":"delete","relation_tuple":`+string(body)+`},{"action":"insert","relation_tuple":`+string(body)+`}]`))
+				}})
+			}
+		}
+	}
 	probes = append(probes, sizedBatches...)
 	// names that are hostile to a statement built by concatenation: quotes, comment markers and line breaks followed by SQL
 	for hi, hostile := range []string{
